@@ -47,6 +47,8 @@ def cases(draw, tier):
     for name in gg.SWITCHES:
         cfg[name] = draw(st.booleans())
     cfg["instances_report_mode"] = draw(st.sampled_from(["ratio", "mixed"]))
+    if draw(st.integers(0, 2)) == 0:
+        cfg["decimals"] = draw(st.sampled_from([0, 1, 2, 3]))
     if draw(st.booleans()):
         cfg["inverse_paths"] = True
     if draw(st.integers(0, 3)) == 0:
@@ -60,6 +62,7 @@ def cases(draw, tier):
                   st.sampled_from([0, 0, 0.5, 1])),
         st.tuples(st.just("profile"), st.sampled_from(["string", "file", "both"])),
         st.tuples(st.just("new_shaper")),
+        st.tuples(st.just("other_shaper"), st.sampled_from([1, 2, 3, 4]), st.sampled_from(["ratio", "mixed"])),
     )
     ops = [list(o) for o in draw(st.lists(op, min_size=draw(st.sampled_from([1, 2, 2, 3])) if size == "small" else 1, max_size=(3 if tier == "quick" else 5) if size == "small" else 2))]
     if size != "small":
@@ -198,12 +201,14 @@ def check(case):
         for it in case["sm_items"]:
             if any(a[0] != "iri" for a in selectors.evaluate(it["sel"], triples)):
                 return discard("non-iri-answer")
-    calls = [o for o in ops if o[0] != "new_shaper"]
+    calls = [o for o in ops if o[0] not in ("new_shaper", "other_shaper")]
     nt = len({tuple(o) for o in calls}) >= 2 or "big" in case["g"]
     if "big" in case["g"]:
         labels.add("big-output")
     if any(o[0] == "new_shaper" for o in ops):
         labels.add("second-shaper")
+    if any(o[0] == "other_shaper" for o in ops):
+        labels.add("unrelated-shaper-in-between")
     if case.get("sm_items"):
         labels.add("shape-map")
     if case.get("via_rdflib"):
@@ -248,6 +253,12 @@ def check(case):
                     # another Shaper built by the same caller with the same dict object; from now on it is the one observed
                     other = sut.Shaper(**make_kwargs(case, ns_shared, shared, hist_path))
                     shaper = other
+                    continue
+                if op[0] == "other_shaper":
+                    # an unrelated Shaper with OTHER presentation options is built and used in between; the observed one stays
+                    kw_o = make_kwargs(case, copy.deepcopy(case["ns"]), None, fresh_path())
+                    kw_o["decimals"], kw_o["instances_report_mode"] = op[1], op[2]
+                    sut.Shaper(**kw_o).shex_graph(string_output=True, acceptance_threshold=0)
                     continue
                 fmt = op[1] if op[0] == "shex" else "profile"
                 fresh = sut.Shaper(**make_kwargs(case, copy.deepcopy(case["ns"]), None, fresh_path()))
